@@ -46,6 +46,7 @@ def run(repo, chk):
     rule_e(repo, chk)
     rule_f(repo, chk)
     rule_g(repo, chk)
+    rule_h(repo, chk)
 
 
 def rule_g(repo, chk):
@@ -460,3 +461,62 @@ def rule_f(repo, chk):
     need(h, 'C03.f: BasePoller._on_generate_events missing')
     ok = any(True for _r, _c in pat.method_calls(h.node, '_generate_events'))
     chk.ob('f', h.ref, 'the poller idle handler delegates to _generate_events', ok, loc(h, h.node), discr='delegates', nontrivial=False)
+
+
+def rule_h(repo, chk):
+    """Registered descriptors are opaque to poller code: the wake-up descriptor is a plain int where os.pipe() made it."""
+    chk.rule('C03.h', 'the read end of the wake-up pipe is registered like any descriptor and may be a plain int: poller code calls no method on a '
+                      'descriptor taken from the registration lists (or on a parameter that receives the control descriptor) without an '
+                      'isinstance/hasattr guard — an exception there is swallowed as "bad descriptor" and unregisters the wake-up pipe')
+    base = repo.cls(POLLERS, 'BasePoller')
+    ini = need(base.methods.get('__init__'), 'C03.h: BasePoller.__init__ missing')
+    may_be_int = any('os.pipe()' in src(n) or 'pipe()' in src(n) for n in walk_no_defs(ini.node) if isinstance(n, ast.Assign)) or \
+        any(isinstance(c, ast.Call) and (call_name(c) or '').endswith('pipe') for m in base.methods.values() for c in calls_in(m.node))
+    chk.info(f'control descriptor may be a plain int: {may_be_int}')
+    classes = [base] + [c for c in repo.subclasses(base) if c.module.relpath == POLLERS and c.name != 'KQueue']
+    n_vars = 0
+    for c in classes:
+        for m in c.methods.values():
+            opaque = {}   # variable -> reason
+            # parameters that receive the control descriptor
+            for cc in classes:
+                for mm in cc.methods.values():
+                    for call in calls_in(mm.node):
+                        if isinstance(call.func, ast.Attribute) and call.func.attr == m.name and src(call.func.value) in ('self', 'super()'):
+                            for i, a in enumerate(call.args):
+                                if src(a) == 'self._ctrl_recv' and i + 1 < len(m.params):
+                                    opaque[m.params[i + 1]] = 'receives the control descriptor'
+            # loop variables over the registration lists (directly or through a tuple of copies)
+            derived = set()
+            for n in walk_no_defs(m.node):
+                if isinstance(n, ast.For) and isinstance(n.target, ast.Name):
+                    it = src(n.iter)
+                    if 'self._read' in it or 'self._write' in it:
+                        if isinstance(n.iter, (ast.Tuple, ast.List)):
+                            derived.add(n.target.id)
+                        else:
+                            opaque[n.target.id] = f'iterates over {it}'
+            for n in walk_no_defs(m.node):
+                if isinstance(n, ast.For) and isinstance(n.target, ast.Name) and src(n.iter) in derived:
+                    opaque[n.target.id] = f'iterates over a copy of the registration lists ({src(n.iter)})'
+            if not opaque:
+                continue
+            chk.touch(m)
+            for v, why in opaque.items():
+                n_vars += 1
+                bad = []
+                for n in walk_no_defs(m.node):
+                    if isinstance(n, ast.Attribute) and isinstance(n.value, ast.Name) and n.value.id == v and isinstance(n.ctx, ast.Load):
+                        # guarded by isinstance / hasattr in an enclosing conditional expression or if statement
+                        guarded = False
+                        a = getattr(n, '_parent', None)
+                        while a is not None and a is not m.node:
+                            t = a.test if isinstance(a, (ast.IfExp, ast.If)) else None
+                            if t is not None and any(isinstance(w, ast.Call) and call_name(w) in ('isinstance', 'hasattr') and w.args and src(w.args[0]) == v for w in ast.walk(t)):
+                                guarded = True
+                            a = getattr(a, '_parent', None)
+                        if not guarded:
+                            bad.append(n)
+                chk.ob('h', m.ref, f'`{v}` ({why}) is only compared, stored, looked up or handed to the OS, never dereferenced without a type guard',
+                       not bad or not may_be_int, loc(m, bad[0] if bad else m.node), detail='; '.join(f'L{b.lineno}: {src(b)}' for b in bad[:4]), discr=f'opaque-descriptor:{v}')
+    need(n_vars >= 3, f'C03.h: only {n_vars} descriptor variables found in the pollers, 3 confirmed by hand (Select._preenDescriptors loop, the fd parameter of both _updateRegistration)')
